@@ -1,4 +1,5 @@
 import DirectVerif.Model.Basic
+import DirectVerif.Model.Mask
 /-!
 # C09 — sensitivity maps are normalised and finite (models of `safe_divide`,
 `root_sum_of_squares`, `EstimateSensitivityMapModule.forward`,
@@ -108,5 +109,47 @@ def estimateOrder : List String :=
 /-- statement order of `compute_sensitivity_map` (= `computeSensitivityMap`: refine, then `renorm`) -/
 def engineOrder : List String :=
   ["refine", "norm", "safe_divide:sensitivity_map/sensitivity_map_norm"]
+
+/-! ## layout: `(batch, coil, *spatial, complex = 2)` ↔ `[coil][pixel]`, reductions and unsqueezes -/
+
+/-- entry `(b, c, p, k)` of a flat row-major tensor of shape `(B, C, P, 2)` (row-major offsets are
+`Mask.ravelR`, whose inverse laws are proved in `Lemmas/C03`) -/
+def flatEntry (B C P : Nat) (data : List Int) (b c p k : Nat) : Int :=
+  data.getD (Mask.ravelR [2, P, C, B] [k, p, c, b]) 0
+
+/-- batch item `b` of a `(B, C, P, 2)` tensor as a map `[coil][pixel] ↦ (re, im)` -/
+def toSMap (B C P : Nat) (data : List Int) (b : Nat) : SMap Rat :=
+  (List.range C).map fun c => (List.range P).map fun p =>
+    ((flatEntry B C P data b c p 0 : Rat), (flatEntry B C P data b c p 1 : Rat))
+
+/-- Python `shape` after `.sum(ax)` (axis removed), negative axes counted from the end -/
+def pySumShape (s : List Nat) (ax : Int) : List Nat :=
+  let i := (if ax < 0 then ax + s.length else ax).toNat
+  s.take i ++ s.drop (i + 1)
+
+/-- Python `shape` after `.unsqueeze(ax)` -/
+def pyUnsqueeze (s : List Nat) (ax : Int) : List Nat :=
+  let i := (if ax < 0 then ax + s.length + 1 else ax).toNat
+  s.take i ++ [1] ++ s.drop i
+
+/-- shape of the divisor the code builds from a `(…)` plan for a map of shape `s` -/
+def divisorShape (plan : Bool × Int × List Int × List Int) (s : List Nat) : List Nat :=
+  (plan.2.2.2).foldl pyUnsqueeze ((plan.2.2.1).foldl pySumShape s)
+
+/-- accepted norm plans: square root of the sum of squares over complex (-1) then coil (1) axis,
+re-inserted in either order (`unsqueeze(1).unsqueeze(-1)` or `unsqueeze(-1).unsqueeze(1)`) -/
+def planWf (plan : Bool × Int × List Int × List Int) : Bool :=
+  plan.1 && plan.2.1 == 2 && plan.2.2.1 == [-1, 1] && (plan.2.2.2 == [1, -1] || plan.2.2.2 == [-1, 1])
+
+/-- functions with their own sensitivity-map normalisation that the oracle observes on the real module -/
+def ownNormalisationCovered : List String := ["JointICNet.forward"]
+
+/-- a sensitivity-map site `(file, function, kind)` is accounted for when it calls the verified
+`compute_sensitivity_map`, or normalises itself inside a function the oracle observes -/
+def sensSiteAccounted (s : String × String × String) : Bool :=
+  s.2.2 == "call:compute_sensitivity_map" || (s.2.2 == "own-normalisation" && ownNormalisationCovered.contains s.2.1)
+
+/-- keys the pipeline's `Normalize` may rescale: never the sensitivity map -/
+def normalizeKeysAllowed : List String := ["KspaceKey.KSPACE", "KspaceKey.MASKED_KSPACE"]
 
 end DirectVerif.Sens
